@@ -732,3 +732,116 @@ Proof.
   rewrite subst_cons_0. apply view_decode, V_nodelim.
   destruct (is_delim v); [exfalso; apply Hex; auto|reflexivity].
 Qed.
+
+(* ------------------------------------------------------------- single-bit errors *)
+
+Lemma in_bit_positions k : 0 <= k < 8 -> In k bit_positions.
+Proof. intros H. unfold bit_positions. cbn [In]. lia. Qed.
+
+Lemma is_delim_in d : is_delim d = true -> In d delims.
+Proof.
+  unfold is_delim, delims. cbn [In]. intros H.
+  destruct (Z.eqb_spec d SD1); [auto|]. destruct (Z.eqb_spec d SD2); [auto|]. destruct (Z.eqb_spec d SD3); [auto|].
+  destruct (Z.eqb_spec d SD4); [auto|]. destruct (Z.eqb_spec d SC); [auto 6|]. discriminate.
+Qed.
+
+(* the regenerated start delimiters and SC are pairwise at Hamming distance >= 4 *)
+Lemma delims_distance a b : In a delims -> In b delims -> a <> b -> (4 <= hamming a b)%nat.
+Proof.
+  assert (C : forallb (fun a => forallb (fun b => (a =? b) || Nat.leb 4 (hamming a b)) delims) delims = true)
+    by (vm_compute; reflexivity).
+  intros Ha Hb Hne. rewrite forallb_forall in C. specialize (C a Ha). rewrite forallb_forall in C. specialize (C b Hb).
+  apply orb_prop in C. destruct C as [C|C]; [apply Z.eqb_eq in C; contradiction|apply Nat.leb_le, C].
+Qed.
+
+Lemma flip_byte x k : is_byte x -> 0 <= k < 8 -> is_byte (Z.lxor x (2 ^ k)) /\ Z.lxor x (2 ^ k) <> x.
+Proof.
+  intros Hx Hk.
+  pose proof (sweep256 (fun x => forallb (fun k => is_byteb (Z.lxor x (2 ^ k)) && negb (Z.lxor x (2 ^ k) =? x)) bit_positions)
+                       eq_refl x Hx) as S.
+  cbv beta in S. rewrite forallb_forall in S. specialize (S k (in_bit_positions k Hk)).
+  apply andb_prop in S. destruct S as [S1 S2]. unfold is_byteb in S1. apply andb_prop in S1. destruct S1 as [S1 S1'].
+  apply Z.leb_le in S1. apply Z.ltb_lt in S1'. apply negb_true_iff, Z.eqb_neq in S2. unfold is_byte. split; [lia|exact S2].
+Qed.
+
+Lemma hamming_flip x k : 0 <= k < 8 -> hamming x (Z.lxor x (2 ^ k)) = 1%nat.
+Proof.
+  intros Hk. unfold hamming. rewrite <- Z.lxor_assoc, Z.lxor_nilpotent, Z.lxor_0_l.
+  assert (K : k = 0 \/ k = 1 \/ k = 2 \/ k = 3 \/ k = 4 \/ k = 5 \/ k = 6 \/ k = 7) by lia.
+  destruct K as [->|[->|[->|[->|[->|[->|[->| ->]]]]]]]; reflexivity.
+Qed.
+
+(* hence a single-bit error never turns one delimiter into another *)
+Lemma delim_flip d k : is_delim d = true -> 0 <= k < 8 -> is_delim (Z.lxor d (2 ^ k)) = false.
+Proof.
+  intros Hd Hk. destruct (is_delim (Z.lxor d (2 ^ k))) eqn:E; [exfalso|reflexivity].
+  apply is_delim_in in Hd. apply is_delim_in in E.
+  assert (Bd : is_byte d).
+  { destruct delims_are_bytes as (B1 & B2 & B3 & B4 & B5 & _). unfold delims in Hd. cbn [In] in Hd.
+    destruct Hd as [<-|[<-|[<-|[<-|[<-|[]]]]]]; assumption. }
+  destruct (flip_byte d k Bd Hk) as (_ & Hne).
+  pose proof (delims_distance d _ Hd E (fun H => Hne (eq_sym H))) as D. rewrite hamming_flip in D by exact Hk. lia.
+Qed.
+
+Lemma frame_spec_first_delim h pdu : is_delim (nth 0 (frame_spec h pdu) 0) = true.
+Proof.
+  unfold frame_spec. destruct (Nat.eqb _ 3); [reflexivity|]. destruct (Nat.eqb _ 11); reflexivity.
+Qed.
+
+Lemma single_bit_data h pdu pos k :
+  wf_header h -> all_bytes pdu -> (length_byte h (length pdu) <= 249)%nat ->
+  (pos < length (frame_spec h pdu))%nat -> 0 <= k < 8 ->
+  decode (subst (frame_spec h pdu) pos (Z.lxor (nth pos (frame_spec h pdu) 0) (2 ^ k))) = Ok Reject.
+Proof.
+  intros Hwf Hp Hlb Hpos Hk.
+  pose proof (all_bytes_nth _ pos (frame_spec_all_bytes h pdu Hwf Hp Hlb) Hpos) as Hx.
+  destruct (flip_byte _ k Hx Hk) as (Hv & Hne).
+  apply single_byte_data; try assumption.
+  intros (-> & Hd). rewrite delim_flip in Hd; [discriminate|apply frame_spec_first_delim|exact Hk].
+Qed.
+
+Lemma single_bit_sc pos k :
+  (pos < length encode_sc)%nat -> 0 <= k < 8 ->
+  decode (subst encode_sc pos (Z.lxor (nth pos encode_sc 0) (2 ^ k))) = Ok Reject.
+Proof.
+  intros Hpos Hk. assert (pos = 0%nat) by (cbn in Hpos; lia). subst pos.
+  destruct delims_are_bytes as (_ & _ & _ & _ & B5 & _).
+  destruct (flip_byte SC k B5 Hk) as (Hv & Hne).
+  apply single_byte_sc; [exact Hpos|exact Hne|].
+  intros (_ & Hd). cbn [encode_sc nth] in Hd. rewrite delim_flip in Hd; [discriminate|reflexivity|exact Hk].
+Qed.
+
+(* ------------------------------------------------------------- the excluded case is real, and the only one *)
+
+Lemma accepted_mutation_is_delimiter_swap h pdu pos v t n :
+  wf_header h -> all_bytes pdu -> (length_byte h (length pdu) <= 249)%nat ->
+  (pos < length (frame_spec h pdu))%nat -> is_byte v -> v <> nth pos (frame_spec h pdu) 0 ->
+  decode (subst (frame_spec h pdu) pos v) = Ok (Accept t n) -> pos = 0%nat /\ is_delim v = true.
+Proof.
+  intros Hwf Hp Hlb Hpos Hv Hne D.
+  destruct (Nat.eq_dec pos 0) as [E|E]; [destruct (is_delim v) eqn:Ed; [auto|]|];
+    rewrite single_byte_data in D; try assumption; try discriminate.
+  - intros (_ & H). congruence.
+  - intros (H & _). contradiction.
+Qed.
+
+Definition swap_witness_h : header := mkHeader 5 2 None None (FcRequest FcbHigh RqSrdLow).
+
+Lemma delimiter_swap_witness :
+  wf_header swap_witness_h /\ all_bytes [] /\ (length_byte swap_witness_h (length (@nil Z)) <= 249)%nat /\
+  is_byte SD4 /\ SD4 <> nth 0 (frame_spec swap_witness_h []) 0 /\ is_delim SD4 = true /\
+  decode (subst (frame_spec swap_witness_h []) 0 SD4) = Ok (Accept (TToken 5 2) 3).
+Proof.
+  split; [unfold wf_header, is_addr7, wf_sap; cbn; lia|]. split; [constructor|].
+  split; [apply Nat.leb_le; vm_compute; reflexivity|].
+  split; [apply delims_are_bytes|]. split; [vm_compute; discriminate|]. split; vm_compute; reflexivity.
+Qed.
+
+Lemma mut_oracle_ok h pdu pos v r :
+  wf_header h -> all_bytes pdu -> (length_byte h (length pdu) <= 249)%nat ->
+  (pos < length (frame_spec h pdu))%nat -> is_byte v -> v <> nth pos (frame_spec h pdu) 0 ->
+  decode (subst (frame_spec h pdu) pos v) = Ok r -> c10_mut_ok (frame_spec h pdu) pos v (Some r) = true.
+Proof.
+  intros Hwf Hp Hlb Hpos Hv Hne D. destruct r as [ | |t n]; cbn [c10_mut_ok]; try reflexivity.
+  destruct (accepted_mutation_is_delimiter_swap h pdu pos v t n Hwf Hp Hlb Hpos Hv Hne D) as (-> & ->). reflexivity.
+Qed.
